@@ -132,8 +132,8 @@ func (r *rng) intn(n int) int {
 	}
 	return int(r.u64() % uint64(n))
 }
-func (r *rng) chance(pct int) bool  { return r.intn(100) < pct }
-func (r *rng) pick(n ...int) int    { return n[r.intn(len(n))] }
+func (r *rng) chance(pct int) bool    { return r.intn(100) < pct }
+func (r *rng) pick(n ...int) int      { return n[r.intn(len(n))] }
 func (r *rng) str(s ...string) string { return s[r.intn(len(s))] }
 func (r *rng) between(a, b int) int {
 	if b <= a {
@@ -155,21 +155,21 @@ type engineFn func(x *X)
 
 // X is the execution context of one run.
 type X struct {
-	t     *testing.T
-	p     *Plan
-	sim   *simrt.Sim
-	out   *RunOut
-	root  string // per-run scratch directory
-	start time.Time
-	fp    uint64
-	opIdx int
-	stop  bool // a violation that makes continuing meaningless was recorded
-	suppress bool // only the oracles that hold for every response apply
+	t             *testing.T
+	p             *Plan
+	sim           *simrt.Sim
+	out           *RunOut
+	root          string // per-run scratch directory
+	start         time.Time
+	fp            uint64
+	opIdx         int
+	stop          bool // a violation that makes continuing meaningless was recorded
+	suppress      bool // only the oracles that hold for every response apply
 	pendingResync bool
 	keepResynced  bool
-	allResynced bool // every violation so far was re-synchronised
-	resynced bool // the last violation was attributed to a known family and the model was re-synchronised: the run may go on
-	extra map[string]any
+	allResynced   bool // every violation so far was re-synchronised
+	resynced      bool // the last violation was attributed to a known family and the model was re-synchronised: the run may go on
+	extra         map[string]any
 }
 
 func (x *X) viol(props []string, oracle, sig, detail string) {
@@ -277,7 +277,11 @@ func runPlan(t *testing.T, p *Plan) (out *RunOut) {
 		res = sim.Run()
 		out.SimSec = time.Since(x.start).Seconds()
 	}
-	func() {
+	// (in its own goroutine: synctest.Test ends the calling goroutine with FailNow when the race detector reported
+	// something during the bubble, and the worker must go on to collect the report)
+	bubbleDone := make(chan struct{})
+	go func() {
+		defer close(bubbleDone)
 		defer func() {
 			if r := recover(); r != nil {
 				msg := fmt.Sprint(r)
@@ -289,6 +293,7 @@ func runPlan(t *testing.T, p *Plan) (out *RunOut) {
 		}()
 		synctest.Test(t, body)
 	}()
+	<-bubbleDone
 	if sim == nil {
 		if out.Infra == "" {
 			out.Infra = "simulation did not start"
@@ -299,6 +304,7 @@ func runPlan(t *testing.T, p *Plan) (out *RunOut) {
 		out.Infra = fmt.Sprintf("task panic: %v\n%s", pv, st)
 	}
 	x.finishRun(res)
+	x.collectRaces()
 	// record the streams as consumed so the plan is explicit afterwards
 	p.Sched, p.MapOrder, p.Entropy, p.FaultS = sched.Vals, mo.Vals, ent.Vals, fs.Vals
 	return
@@ -671,17 +677,17 @@ func TestVerif(t *testing.T) {
 // minimisation and replay
 
 type replayDoc struct {
-	Property  string     `json:"property"`
-	Oracle    string     `json:"oracle"`
-	Signature string     `json:"signature"`
-	Seed      uint64     `json:"seed"`
-	Tier      string     `json:"tier"`
-	Engine    string     `json:"engine"`
-	Plan      *Plan      `json:"plan"`
-	Minimised minimStat  `json:"minimised"`
-	Violation Violation  `json:"violation"`
-	EventHash string     `json:"event_log_hash"`
-	LogTail   []string   `json:"event_log_tail"`
+	Property  string    `json:"property"`
+	Oracle    string    `json:"oracle"`
+	Signature string    `json:"signature"`
+	Seed      uint64    `json:"seed"`
+	Tier      string    `json:"tier"`
+	Engine    string    `json:"engine"`
+	Plan      *Plan     `json:"plan"`
+	Minimised minimStat `json:"minimised"`
+	Violation Violation `json:"violation"`
+	EventHash string    `json:"event_log_hash"`
+	LogTail   []string  `json:"event_log_tail"`
 }
 
 func findViol(out *RunOut, sig string) (Violation, bool) {
@@ -699,6 +705,10 @@ func minimise(t *testing.T, p *Plan, v Violation) (*Plan, minimStat, Violation) 
 	best.Fixed = true
 	st := minimStat{FromOps: p.nOps(), FromSw: len(p.Sched)}
 	budget := 250
+	runPlan := runPlan
+	if v.Oracle == "race" {
+		runPlan, budget = runPlanIsolated, 120
+	}
 	try := func(c *Plan) bool {
 		if st.Reruns >= budget {
 			return false
@@ -841,7 +851,11 @@ func replayFile(t *testing.T, path string) {
 	if v, ok := findViol(out, doc.Signature); ok {
 		res["reproduced"] = true
 		res["violation"] = v
-	} else {
+	}
+	if os.Getenv("VERIF_RACELOG") != "" {
+		res["violations_seen"] = out.Viol
+		res["plan"] = p
+	} else if res["reproduced"] == false {
 		res["violations_seen"] = out.Viol
 	}
 	rb, _ := json.MarshalIndent(res, "", " ")
